@@ -632,8 +632,8 @@ PROPS = {
                         "runs inside Transaction; regenerated SQL fact table); concurrent readers are not sampled by this stream"],
     },
     "C06": {
-        "lean_module": "Keto.Props.C06",
-        "theorems": ["Keto.Store.C06_frame", "Keto.Store.C06_frame_single", "Keto.Store.C06_no_leak", "Keto.Store.C06_sql_nid"],
+        "lean_module": ["Keto.Props.C06", "Keto.Proofs.FactsTie"],
+        "theorems": ["Keto.FactsTie.sqlNid_tie", "Keto.Store.C06_frame", "Keto.Store.C06_frame_single", "Keto.Store.C06_no_leak", "Keto.Store.C06_sql_nid"],
         "streams": [{"name": "store-nets", "n": {"quick": 300, "thorough": 3000}, "oracle": oracle_c06, "thorough_seeds": 3}],
         "rule": STORE_RULE + "; 2-3 networks (Persisters with different network ids, handlers built on each) over ONE database run "
                 "interleaved histories with the same strings, tuples and queries, including delete-by-empty-query; f<i> compares the "
